@@ -564,7 +564,7 @@ func genC12Chunk(rt *rapid.T, types []int) c12Chunk {
 	case wtABORT, wtERROR:
 		n := rapid.IntRange(0, 3).Draw(rt, "nc")
 		for i := 0; i < n; i++ {
-			c.Causes = append(c.Causes, c12Cause{Code: uint16(rapid.SampledFrom([]int{12, 13, 6, 7, 1, 3, 9, 100}).Draw(rt, "code")), B: genBytes(rt, "cb", 40)})
+			c.Causes = append(c.Causes, c12Cause{Code: uint16(rapid.OneOf(rapid.IntRange(0, 16), rapid.SampledFrom([]int{12, 13, 6, 7, 100, 255, 256, 0x8000, 0xc000, 0xffff})).Draw(rt, "code")), B: genBytes(rt, "cb", 40)})
 		}
 	case wtSHUTDOWN:
 		c.Cum = genU32(rt, "cum")
@@ -818,7 +818,7 @@ func genC12Mut(rt *rapid.T) c12Mut {
 	m := c12Mut{Sc: genC12(rt)}
 	n := rapid.IntRange(0, 4).Draw(rt, "nmut")
 	for i := 0; i < n; i++ {
-		m.Muts = append(m.Muts, [3]int{rapid.IntRange(0, 4).Draw(rt, "mk"), rapid.IntRange(0, 4000).Draw(rt, "mpos"), rapid.IntRange(0, 255).Draw(rt, "mval")})
+		m.Muts = append(m.Muts, [3]int{rapid.IntRange(0, 6).Draw(rt, "mk"), rapid.IntRange(0, 4000).Draw(rt, "mpos"), rapid.IntRange(0, 255).Draw(rt, "mval")})
 	}
 	return m
 }
@@ -842,6 +842,19 @@ func c12ApplyMuts(raw []byte, muts [][3]int) []byte {
 		case 4: // corrupt a length field of the first chunk
 			if len(b) >= 16 {
 				binary.BigEndian.PutUint16(b[14:], uint16(m[2])+uint16(m[1]%3)*256)
+			}
+		case 5: // first chunk length off by -3..+3 (ends inside / just beyond its padding)
+			if len(b) >= 16 {
+				d := []int{-3, -2, -1, 1, 2, 3}[m[2]%6]
+				binary.BigEndian.PutUint16(b[14:], uint16(int(binary.BigEndian.Uint16(b[14:]))+d))
+			}
+		case 6: // a 4-byte aligned TLV-looking length field off by -3..+3 (parameter / cause lengths)
+			if len(b) >= 24 {
+				q := 16 + (m[1]%(len(b)-16))&^3
+				if q+4 <= len(b) {
+					d := []int{-3, -2, -1, 1, 2, 3}[m[2]%6]
+					binary.BigEndian.PutUint16(b[q+2:], uint16(int(binary.BigEndian.Uint16(b[q+2:]))+d))
+				}
 			}
 		}
 	}
